@@ -734,8 +734,11 @@ def run_call(cd, registry, case):
             names = {c: n for n, c in registry.items()}
             # the dict keeps insertion order and entries are never removed: the new ones are the last ones
             fresh = list(itertools.islice(reversed(real_cache.items()), len(real_cache) - n0))[::-1]
-            out["cache_new"] = json.dumps([[names.get(k[0], getattr(k[0], "__name__", "?")), "ov" if k[1] else "",
-                                            bool(k[2]), mapper_to_wire(v)] for k, v in fresh], separators=(",", ":"))
+            try:
+                out["cache_new"] = json.dumps([[names.get(k[0], getattr(k[0], "__name__", "?")), "ov" if k[1] else "",
+                                                bool(k[2]), mapper_to_wire(v)] for k, v in fresh], separators=(",", ":"))
+            except Exception:       # a cache keyed / filled differently: its contents are evidence, not the property
+                out.pop("cache_new", None)
             doc_f = serialize(x, mapper=explicit, camel_case_convert=camel)
             if doc_f != doc:
                 out["ser_paths_differ"] = [doc, doc_f]
